@@ -578,7 +578,18 @@ fn run_srv_case(port: u16, case: usize, cs: &SrvCase, logs: &[LogFile], logline:
                     match r.as_deref().and_then(parse_ok_json) {
                         Some((_, v)) if v["search_idxs"].is_array() => {
                             let next = v["next_search_idx"].as_i64().unwrap_or(-1);
-                            s.push(json!({"ev":"ok_search","id":id,"start":sat(st),"max":sat(*max),"filt":f_abs(sf),"idxs":v["search_idxs"],"next":next}));
+                            if s.big {
+                                // big periodic logs: a summary of the page (the positions themselves are not written into the trace)
+                                let idxs: Vec<i64> = v["search_idxs"].as_array().unwrap().iter().map(|x| x.as_i64().unwrap_or(-1)).collect();
+                                let asc = idxs.windows(2).all(|w| w[0] < w[1]) && idxs.iter().all(|x| *x >= 0);
+                                let mut res: Vec<i64> = idxs.iter().map(|x| x.rem_euclid(30)).collect();
+                                res.sort();
+                                res.dedup();
+                                s.push(json!({"ev":"ok_search_sum","id":id,"start":sat(st),"max":sat(*max),"filt":f_abs(sf),"n":idxs.len(),
+                                    "first":idxs.first().copied().unwrap_or(-1),"last":idxs.last().copied().unwrap_or(-1),"asc":asc,"res":res,"next":next}));
+                            } else {
+                                s.push(json!({"ev":"ok_search","id":id,"start":sat(st),"max":sat(*max),"filt":f_abs(sf),"idxs":v["search_idxs"],"next":next}));
+                            }
                             if next < 0 {
                                 break;
                             }
@@ -895,6 +906,31 @@ fn srv_main(a: &Args) {
         cases.push(mk("stream", true, false, &neg, (3, 5000), vec![(4500, 9000)]));
         cases.push(mk("stream", false, false, &unf, (10, 4200), vec![]));
     }
+    // (C2) searches on a periodic log of several 100 000 messages (more positions than any per-call scan limit of the server could
+    //      be): pages that are filled only far into the stream or never, on the unfiltered stream and on a filtered stream that keeps
+    //      every message (stream position = message index); pages are recorded as summaries (`ok_search_sum`)
+    let n_bs = a.num("--bigsearch", 0);
+    if n_bs > 0 {
+        let (pe, pa, pc) = (["ECUA", "ECUB"], ["APIA", "APIB", "APIC"], ["CTIA", "CTIB", "CTIC", "CTID", "CTIE"]);
+        let msgs: Vec<GenMsg> = (0..n_bs as usize)
+            .map(|i| GenMsg { ecu: pe[i % 2].into(), apid: pa[i % 3].into(), ctid: pc[i % 5].into(), t_ms: 1000 + i as u64, mcnt: (i % 256) as u8, text: String::new(), ts_dms: 0 })
+            .collect();
+        let path = format!("{}/searchlog.dlt", dir);
+        write_log(&path, &msgs);
+        logs.push(LogFile { path, msgs: vec![], big: n_bs, orig: Arc::new(msgs), pad: Arc::new(String::new()) });
+        let li = logs.len() - 1;
+        let unf: Vec<F> = vec![];
+        let all = vec![lit("event", true, "ECUA", "", ""), lit("event", true, "ECUB", "", ""), lit("neg", false, "ECUA", "", "")];
+        let one30 = vec![lit("pos", true, "ECUB", "APIC", "CTID")];                                          // 1/30 of the positions
+        let one15 = vec![lit("pos", true, "", "APIB", "CTIE")];                                             // 1/15
+        let never = vec![lit("pos", true, "", "NONE", "")];
+        let mk = |filt: &Vec<F>, searches: Vec<(u64, u64, Vec<F>)>| SrvCase {
+            src: "bigsearch".into(), log: li, kind: "stream".into(), late: true, paused_query: false, filt: filt.clone(), win: (0, 20), early_change: None, changes: vec![],
+            searches, lookups: vec![], pred: Value::Null, sort: false, stall_ms: 0, stall_mid: false, binary: true, extreme: false,
+        };
+        cases.push(mk(&unf, vec![(0, 1_000_000, one30.clone()), (7, 9_500, one30.clone()), (0, 5, never.clone())]));
+        cases.push(mk(&all, vec![(0, 19_000, one15.clone()), (n_bs / 3, 1_000_000, one30.clone())]));
+    }
     // (E) a small log in which some messages were delivered late (reception order = file order, but their timestamp is earlier
     //     by >= 2 positions): opened with sort true / false x filter sets, the whole stream delivered, then lookups for EVERY
     //     index (and, sorted, for every message time): positions are positions in STREAM order
@@ -1113,7 +1149,7 @@ fn srv_main(a: &Args) {
                     frames += 1;
                     delivered += e["n"].as_u64().unwrap();
                 }
-                "ok_search" => pages += 1,
+                "ok_search" | "ok_search_sum" => pages += 1,
                 "ok_bsearch" | "err_bsearch" => lookups += 1,
                 _ => {}
             }
